@@ -750,3 +750,102 @@ Proof.
   - unfold bibtex_len, bibtex_prefix, bibtex_purify, change_case. rewrite Hs. cbn [bind].
     repeat split; eauto. intros k. destruct (0 <? k)%Z; eauto.
 Qed.
+
+(* ------------------------------------------------------------------ substring: negative start = mirror image *)
+Lemma mirror_nat {X} (s : list X) a b L : b + L + a = length s ->
+  firstn L (skipn b s) = rev (firstn L (skipn a (rev s))).
+Proof.
+  intros H. rewrite skipn_rev. replace (length s - a) with (b + L) by lia.
+  rewrite firstn_rev, rev_involutive, firstn_length.
+  replace (Nat.min (b + L) (length s) - L) with b by lia.
+  rewrite skipn_firstn_comm. f_equal. lia.
+Qed.
+
+Lemma substring_mirror_lemma s k l : (0 < k)%Z ->
+  bibtex_substring s (- k) l = rev (bibtex_substring (rev s) k l).
+Proof.
+  intros Hk. rewrite !substring_spec_lemma. unfold substring_spec. rewrite rev_length. cbv zeta.
+  set (n := Z.of_nat (length s)).
+  assert (Hn : n = Z.of_nat (length s)) by reflexivity.
+  destruct (l <=? 0)%Z eqn:E1; [reflexivity|].
+  replace (- k =? 0)%Z with false by (symmetry; apply Z.eqb_neq; lia).
+  replace (k =? 0)%Z with false by (symmetry; apply Z.eqb_neq; lia).
+  replace (Z.abs (- k)) with k by lia. replace (Z.abs k) with k by lia.
+  destruct (n <? k)%Z eqn:E3; cbn [orb]; [reflexivity|].
+  replace (0 <? - k)%Z with false by (symmetry; apply Z.ltb_ge; lia).
+  replace (0 <? k)%Z with true by (symmetry; apply Z.ltb_lt; lia).
+  zb. replace (- - k)%Z with k by lia.
+  apply mirror_nat. lia.
+Qed.
+
+Lemma firstn_min_length {X} (l : list X) a : firstn (Nat.min a (length l)) l = firstn a l.
+Proof.
+  destruct (Nat.le_gt_cases a (length l)) as [H|H].
+  - rewrite Nat.min_l by exact H. reflexivity.
+  - rewrite Nat.min_r by lia. rewrite firstn_all, firstn_all2 by lia. reflexivity.
+Qed.
+
+(* positive start: plain 1-based selection, clamped at the end of the string *)
+Lemma substring_positive_lemma s start len : (1 <= start)%Z ->
+  bibtex_substring s start len = firstn (Z.to_nat len) (skipn (Z.to_nat (start - 1)) s).
+Proof.
+  intros Hs. rewrite substring_spec_lemma. unfold substring_spec. cbv zeta.
+  set (n := Z.of_nat (length s)). assert (Hn : n = Z.of_nat (length s)) by reflexivity.
+  replace (start =? 0)%Z with false by (symmetry; apply Z.eqb_neq; lia).
+  replace (Z.abs start) with start by lia.
+  replace (0 <? start)%Z with true by (symmetry; apply Z.ltb_lt; lia).
+  destruct (len <=? 0)%Z eqn:E1; cbn [orb].
+  - zb. replace (Z.to_nat len) with 0 by lia. reflexivity.
+  - destruct (n <? start)%Z eqn:E3; zb.
+    + rewrite skipn_all2 by lia. destruct (Z.to_nat len); reflexivity.
+    + rewrite <- (firstn_min_length (skipn _ s) (Z.to_nat len)). f_equal. rewrite skipn_length. lia.
+Qed.
+
+(* ------------------------------------------------------------------ what the Spec's text length means *)
+Definition count_nonbrace (g : str) : nat := length (filter (fun c => negb (is_brace c)) g).
+
+Lemma text_len_special_go s : forall inner d k, depth_from k inner = Some 0 ->
+  text_len_go (inner ++ c_rbrace :: s) d (Some k) = S (text_len_go s 0 None).
+Proof.
+  induction inner as [|c t IH]; intros d k Hd; cbn [depth_from] in Hd.
+  - injection Hd as ->. reflexivity.
+  - cbn [app text_len_go]. destruct (N.eqb c c_lbrace); [apply IH; exact Hd|].
+    destruct (N.eqb c c_rbrace); [|apply IH; exact Hd].
+    destruct k; [discriminate|apply IH; exact Hd].
+Qed.
+
+Lemma text_len_group_go s : forall g k, depth_from k g = Some 0 ->
+  text_len_go (g ++ c_rbrace :: s) (S k) None = count_nonbrace g + text_len_go s 0 None.
+Proof.
+  induction g as [|c t IH]; intros k Hd; cbn [depth_from] in Hd.
+  - injection Hd as ->. reflexivity.
+  - cbn [app text_len_go]. unfold count_nonbrace, is_brace, is_lbrace, is_rbrace. cbn [filter].
+    destruct (N.eqb c c_lbrace) eqn:El; cbn [orb negb Nat.eqb andb].
+    + apply IH. exact Hd.
+    + destruct (N.eqb c c_rbrace) eqn:Er; cbn [negb].
+      * destruct k; [discriminate|]. cbn [pred]. apply IH. exact Hd.
+      * cbn [length]. rewrite (IH k Hd). reflexivity.
+Qed.
+
+Lemma text_len_laws_lemma :
+  text_len [] = 0 /\
+  (forall c s, is_brace c = false -> text_len (c :: s) = S (text_len s)) /\
+  (forall s, text_len (c_rbrace :: s) = text_len s) /\
+  (forall inner s, balanced inner ->
+     text_len (c_lbrace :: c_bslash :: inner ++ c_rbrace :: s) = S (text_len s)) /\
+  (forall g s, balanced g -> bs_head g = false ->
+     text_len (c_lbrace :: g ++ c_rbrace :: s) = count_nonbrace g + text_len s).
+Proof.
+  split; [reflexivity|]. split; [|split; [reflexivity|split]].
+  - intros c s H. unfold is_brace, is_lbrace, is_rbrace in H. apply orb_false_elim in H as [El Er].
+    unfold text_len. cbn [text_len_go]. rewrite El, Er. reflexivity.
+  - intros inner s Hb. unfold text_len. cbn [text_len_go Nat.eqb andb].
+    change (N.eqb c_lbrace c_lbrace) with true. change (N.eqb c_bslash c_bslash) with true.
+    change (N.eqb c_bslash c_lbrace) with false. change (N.eqb c_bslash c_rbrace) with false. cbv iota.
+    apply text_len_special_go. exact Hb.
+  - intros g s Hb Hh. unfold text_len. cbn [text_len_go Nat.eqb andb].
+    change (N.eqb c_lbrace c_lbrace) with true. cbv iota.
+    assert (E : match g ++ c_rbrace :: s with b :: _ => N.eqb b c_bslash | [] => false end = false).
+    { destruct g; [reflexivity|exact Hh]. }
+    rewrite E. apply text_len_group_go. exact Hb.
+Qed.
